@@ -18,6 +18,7 @@ ORIGIN = {
     0: "written by an independent sub-agent that saw only the property text, the list of ideas already used in earlier rounds, and a scratch worktree of /repo (nothing from /verif)",
     6: "written by an independent sub-agent that saw only the property text and a scratch worktree of /repo (nothing from /verif); asked for ordinary maintainer mistakes",
     8: "written by an independent sub-agent that saw only the property text and a scratch worktree of /repo (nothing from /verif); asked for changes in the shape of a pull request (refactoring, optimisation or small feature of 10-60 lines)",
+    10: "written by an independent sub-agent that saw only the property text and a scratch worktree of /repo at 93835f2 (nothing from /verif); asked for one change placed in, or cooperating with, the code of the three latest repairs (set_minifat error, header-before-extend in allocate_mini_sector, commit_stream_chain)",
     9: "written by an independent sub-agent that saw only the property text and a scratch worktree of /repo at 8e27fed (nothing from /verif); asked for (R) two cooperating sites that each look fine alone and (S) a change in or next to code that a recent fix commit introduced or that handles a rare situation",
     7: "written by an independent sub-agent that saw only the property text, the list of functions no earlier seeded change had touched (both changes had to be placed there), and a scratch worktree of /repo (nothing from /verif)",
 }
